@@ -194,5 +194,55 @@ theorem timedCore_mss (hA : asciiDigitsOK = true) (disc : Str) (m : Nat) (hm : 0
   · simp only [hc, if_true, hsp, pyInt_natStr hA m, hf]
   · simp only [hc, Bool.false_eq_true, if_false, hsp, pyInt_natStr hA m, hf]
 
+theorem splitOn_cons_sep (c : Char) (rest : Str) : ∀ a : Str, (∀ ch ∈ a, ch ≠ c) →
+    splitOn c (a ++ c :: rest) = a :: splitOn c rest := by
+  intro a
+  induction a with
+  | nil =>
+    intro _
+    unfold splitOn
+    simp only [List.nil_append, List.foldr_cons]
+    simp
+  | cons x tl ih =>
+    intro h
+    have hr := ih (fun ch hch => h ch (List.mem_cons_of_mem _ hch))
+    have hx : (x == c) = false := by simpa using h x (List.mem_cons_self ..)
+    unfold splitOn at hr ⊢
+    rw [List.cons_append, List.foldr_cons, hr]
+    simp [hx]
+
+theorem timedCore_hmmss (hA : asciiDigitsOK = true) (disc : Str) (h m : Nat) (hh : 0 < h) (hm : m < 60) (sec : Str) (d : Nat)
+    (hg : getDistance 8 disc = .ok (some d)) (h200 : 200 < d)
+    (hno : strIn disc ["800", "1500", "3000"] = false) (hsc : ∀ ch ∈ sec, ch ≠ ':')
+    (f : Nat × Nat × Nat) (hf : floatOf sec = some f) :
+    timedCore disc (natStr h ++ ':' :: (twoDigits m ++ ':' :: sec)) = timedDecide disc (some d) h m f.1 f.2.1 f.2.2 := by
+  obtain ⟨d0, rest, hnat, hd0, hd10⟩ := natStr_head h hh
+  have hne0 : digitChar0 d0 ≠ '0' := fun e => by have := (digitChar0_eq_zero d0 hd10).1 e; omega
+  have ht : natStr h ++ ':' :: (twoDigits m ++ ':' :: sec) = digitChar0 d0 :: (rest ++ ':' :: (twoDigits m ++ ':' :: sec)) := by
+    rw [hnat]; rfl
+  have h0 : startsWith (natStr h ++ ':' :: (twoDigits m ++ ':' :: sec)) "0:" = false := by
+    rw [ht]; exact startsWith_head_ne _ _ "0:" '0' [':'] rfl hne0
+  have h00 : startsWith (natStr h ++ ':' :: (twoDigits m ++ ':' :: sec)) "00:" = false := by
+    rw [ht]; exact startsWith_head_ne _ _ "00:" '0' ['0', ':'] rfl hne0
+  have htw : ∀ ch ∈ twoDigits m, ch ≠ ':' := by
+    intro ch hch
+    simp only [twoDigits_eq, List.mem_cons, List.mem_nil_iff, or_false] at hch
+    rcases hch with rfl | rfl
+    · exact digitChar0_ne_colon _ (Nat.mod_lt _ (by omega))
+    · exact digitChar0_ne_colon _ (Nat.mod_lt _ (by omega))
+  have hsp : splitOn ':' (natStr h ++ ':' :: (twoDigits m ++ ':' :: sec)) = [natStr h, twoDigits m, sec] := by
+    rw [splitOn_cons_sep ':' _ (natStr h) (natStr_no_colon h), splitOn_cons_sep ':' _ (twoDigits m) htw,
+      splitOn_no_sep ':' sec hsc]
+  have hpm : pyInt (twoDigits m) = .ok m := by
+    rw [twoDigits_eq, pyInt_two hA _ _ (Nat.mod_lt _ (by omega)) (Nat.mod_lt _ (by omega))]
+    congr 1; omega
+  have hle : decide (d ≤ 200) = false := by simpa using h200
+  have hcol : (natStr h ++ ':' :: (twoDigits m ++ ':' :: sec)).contains ':' = true := by simp
+  unfold timedCore
+  rw [hg]
+  simp only [h0, h00, Bool.false_eq_true, if_false, Option.getD_some, hle, Bool.and_false, Bool.false_and, hcol,
+    Bool.not_true, hno, hsp, pyInt_natStr hA h, hpm, hf]
+
+
 end Perf
 end AthlibVerif
